@@ -12,16 +12,17 @@ META = {
 }
 
 THEOREMS = [
+    "Qentem.Props.JsonTables.notation_tables",
+    "Qentem.Props.JsonTables.replacement_matches_escapeJson",
+    "Qentem.Props.C06.parse_print",
     "Qentem.Props.C06.objInsert_last_wins_first_position",
-    "Qentem.Props.C06.objInsert_other_keys_untouched",
-    "Qentem.Props.C06.parse_empty_containers",
-    "Qentem.Props.C06.parse_keywords",
+    "Qentem.Props.C06.objInsert_new_key_appended",
 ]
-OPEN = ["Qentem.Props.C06.ParsePrint (parse (print d ℓ) = denote d for every RFC document) — proved only through its parts"]
+OPEN = ["StrSpec / NumSpec instances for every RFC string body and numeral (proved per token class in C20 / C09: backslash-u escapes, surrogate pairs, fitting integers); reals within one ulp is C09's open statement"]
 
 
 def run(ctx):
-    drv, h = _json.setup(ctx, ["Qentem.Props.C06"], THEOREMS, OPEN)
+    drv, h = _json.setup(ctx, ["Qentem.Props.C06", "Qentem.Props.JsonTables"], THEOREMS, OPEN)
     if not h:
         return
     rng = ctx.rng
